@@ -24,6 +24,8 @@ ASSUMPTIONS = [
 ]
 
 from sktime.forecasting.compose import make_reduction  # noqa: E402
+import sktime.forecasting.compose as _compose  # noqa: E402
+import sktime.forecasting.compose._reduce as _reduce_mod  # noqa: E402
 
 STRATS = ("direct", "recursive", "multioutput", "dirrec")
 
@@ -76,10 +78,24 @@ def oracle_recording(strategy, scitype):
         if not tab and case.get("ts_dual"):
             ctx.label("time_series_regressor_with_sklearn_mixin")
         via = bool(case.get("wl_via_set_params"))
-        f = sut(make_reduction, reg, strategy=strategy, window_length=(wl + 2) if via else wl,
-                scitype=case["scitype_arg"] if case["scitype_arg"] == "infer" else scitype)
+        entry = case.get("entry") or "make_reduction"
+        wl0 = (wl + 2) if via else wl
+        sci_arg = case["scitype_arg"] if case["scitype_arg"] == "infer" else scitype
+        if entry == "ReducedForecaster":
+            # the older names of the factory (still exported) build the same forecasters
+            f = sut(_compose.ReducedForecaster, reg, scitype=sci_arg, strategy=strategy, window_length=wl0)
+        elif entry == "ReducedRegressionForecaster":
+            f = sut(_reduce_mod.ReducedRegressionForecaster, reg, scitype=sci_arg, strategy=strategy, window_length=wl0)
+        elif entry == "class":
+            cls = getattr(_compose, {"direct": "Direct", "recursive": "Recursive", "multioutput": "Multioutput", "dirrec": "DirRec"}[strategy]
+                          + ("Tabular" if tab else "TimeSeries") + "RegressionForecaster")
+            f = sut(cls, reg, window_length=wl0)
+        else:
+            f = sut(make_reduction, reg, strategy=strategy, window_length=wl0, scitype=sci_arg)
         if isinstance(f, Raised):
-            return [unexpected(f, "make_reduction")]
+            return [unexpected(f, entry)]
+        if entry != "make_reduction":
+            ctx.label("built_via_" + entry)
         if via:
             # the window length is a parameter: set after construction (as a parameter search
             # does on a clone) it is the one that counts
@@ -402,7 +418,7 @@ def cases(draw, strategy=None, allow_exog=True, feasible_bias=9):
         "dtype": draw(st.sampled_from(["float64", "float64", "int64"])),
         "prefit": draw(st.integers(0, 4)) == 0,
         "revision": draw(st.sampled_from([None, None, 1, 2, 3])), "fh_abs": draw(st.integers(0, 3)) == 0, "wl_via_set_params": draw(st.integers(0, 3)) == 0,
-        "n_exog": 0,
+        "n_exog": 0, "entry": draw(st.sampled_from(["make_reduction", "make_reduction", "make_reduction", "ReducedForecaster", "ReducedRegressionForecaster", "class"])),
     }
     c["n_exog"] = draw(st.integers(0, 3)) if allow_exog else 0
     return c
